@@ -601,6 +601,15 @@ func (H) Execute(x *common.Exec, s any) {
 		x.Violate("C13/goroutine-leak", "after removing every target and stopping the servers these tasks remain: %v", x.R.Unfinished())
 		return
 	}
+	// Every connection the shared connection manager dialled for the targets
+	// is closed once all of them are removed (every holder has released it).
+	x.Oblige(1)
+	if c, d := atomic.LoadInt64(&simgrpc.Stats.Closes), atomic.LoadInt64(&simgrpc.Stats.Connected); c != d {
+		msg := fmt.Sprintf("%d connection(s) were established for the managed targets but %d were closed after every target was removed: a reference was never released\n%s", d, c, w.dump(acts))
+		x.Violate("C16/connection-not-closed-after-all-targets-removed", "%s", msg)
+		x.Violate("C13/connection-not-closed-after-all-targets-removed", "%s", msg)
+		return
+	}
 	finalStamp := simrt.Stamp()
 	// nothing after the final removes
 	var late []cb
@@ -1052,6 +1061,10 @@ func (w *world) judge(x *common.Exec, acts [][]*actRec, quietNs int64, atQuiesce
 			}
 		}
 		x.Oblige(1)
+		if next < 0 && quietNs-c.ns > sc.MaxNs+int64(time.Millisecond) {
+			x.Violate("C13/retry-stopped", "after MonitorError(%s) at %v no further attempt was started although the target stayed managed and %v have passed (RetryMaxDelay %v): retries have stopped\n%s", c.name, time.Duration(c.ns), time.Duration(quietNs-c.ns), time.Duration(sc.MaxNs), dump())
+			return
+		}
 		if next >= 0 && next-c.ns > sc.MaxNs+int64(time.Millisecond) {
 			x.Violate("C13/backoff-exceeds-max", "after MonitorError(%s) at %v the next attempt started at %v: gap %v > RetryMaxDelay %v\n%s", c.name, time.Duration(c.ns), time.Duration(next), time.Duration(next-c.ns), time.Duration(sc.MaxNs), dump())
 			return
